@@ -21,6 +21,7 @@ CONSTANTS Mds0, MdsUp,            \* initial datagram size, sizes it may be rais
           MinPkts, InitPkts, MaxPkts,   \* window limits in datagrams (code: 4, 32, 20000)
           MinBps, PrSet,          \* pacing floor (code: 65536) and abstract pacing-rate estimates
           MaxPn, MaxEv, SlotAdd,
+          SmallOn,                \* TRUE: packets of 1 byte as well as full datagrams
           \* ---- model mutants ----
           ClampOn,      \* FALSE: calculateCongestionWindow without the final min/max       (bbr_sender.go:1006-1007)
           RecFloorOn,   \* FALSE: calculateRecoveryWindow without the minimum-window floor  (:1019, :1039)
@@ -30,12 +31,12 @@ CONSTANTS Mds0, MdsUp,            \* initial datagram size, sizes it may be rais
 
 VARIABLES lastPn, out, largest, mds,                                  \* Env_Quic
           mode, rec, cwnd, rwnd, full, initW, minW, maxW,             \* bbrSender
-          lastSent, roundEnd, endRec, bif, pr,
+          lastSent, roundEnd, endRec, bif,
           qp,                                                          \* sampler.connectionStateMap: present packet numbers
           nEv, mon, hist
 
 vars == <<lastPn, out, largest, mds, mode, rec, cwnd, rwnd, full, initW, minW, maxW,
-          lastSent, roundEnd, endRec, bif, pr, qp, nEv, mon, hist>>
+          lastSent, roundEnd, endRec, bif, qp, nEv, mon, hist>>
 
 Cfg == [minPkts |-> MinPkts, maxPkts |-> MaxPkts, minBps |-> MinBps, thresh |-> 3, slotMul |-> 1, slotAdd |-> SlotAdd]
 
@@ -51,7 +52,7 @@ PacerBw(p) == IF MinBpsOn /\ p < MinBps THEN MinBps ELSE p             \* :663-6
 Slots(q)   == IF q = {} THEN 0 ELSE MaxOf(q) - MinOf(q) + 1            \* queue: last - first + 1
 
 \* ---------------- OnPacketSent ---------------------------------------------------
-Send(gap, bytes, retrans) ==
+Send(gap, bytes, retrans, pr) ==
   /\ nEv < MaxEv
   /\ LET pn   == lastPn + gap
          infl == SetSum(out) + (IF retrans THEN bytes ELSE 0)     \* quic-go adds the packet before the call
@@ -64,7 +65,7 @@ Send(gap, bytes, retrans) ==
         /\ mon' = MonStep(mon, e, 0)
         /\ hist' = Append(hist, <<"send", gap, bytes, IF retrans THEN 1 ELSE 0>>)
   /\ nEv' = nEv + 1
-  /\ UNCHANGED <<largest, mds, mode, rec, cwnd, rwnd, full, initW, minW, maxW, roundEnd, endRec, pr>>
+  /\ UNCHANGED <<largest, mds, mode, rec, cwnd, rwnd, full, initW, minW, maxW, roundEnd, endRec>>
 
 \* ---------------- OnCongestionEventEx ---------------------------------------------
 \* lost sets QUIC can report together with the acked set A
@@ -130,7 +131,7 @@ Cong(A, L, nowFull, toDrainExit, rttExpire, rttExit, tw, pr2, fewAcked) ==
         /\ out' = (out \ A) \ L
         /\ largest' = IF A = {} THEN largest ELSE Max2(largest, lastA)
         /\ mode' = md3 /\ rec' = rec1 /\ cwnd' = cw1 /\ rwnd' = rw2 /\ full' = full2
-        /\ roundEnd' = rEnd2 /\ endRec' = endR2 /\ bif' = bif2 /\ pr' = pr2 /\ qp' = qp2
+        /\ roundEnd' = rEnd2 /\ endRec' = endR2 /\ bif' = bif2 /\ qp' = qp2
         /\ mon' = MonStep(mon, e, 0)
         /\ hist' = Append(hist, <<"cong", SortSeq(SetToSeq(aPns), LAMBDA x, y : x < y), SortSeq(SetToSeq({l[1] : l \in L}), LAMBDA x, y : x < y)>>)
   /\ nEv' = nEv + 1
@@ -138,7 +139,7 @@ Cong(A, L, nowFull, toDrainExit, rttExpire, rttExit, tw, pr2, fewAcked) ==
 
 \* ---------------- SetMaxDatagramSize ------------------------------------------------
 Scale(w, old, new) == IF old = new THEN w ELSE (w * new) \div old      \* :408-413
-SetMDS(v) ==
+SetMDS(v, pr) ==
   /\ nEv < MaxEv /\ v > mds
   /\ LET minW2  == MinPkts * v
          initW2 == Scale(initW, mds, v)
@@ -155,30 +156,32 @@ SetMDS(v) ==
         /\ mon' = MonStep(mon, e, 0)
   /\ nEv' = nEv + 1
   /\ hist' = Append(hist, <<"mds", v>>)
-  /\ UNCHANGED <<lastPn, out, largest, mode, rec, full, lastSent, roundEnd, endRec, bif, pr, qp>>
+  /\ UNCHANGED <<lastPn, out, largest, mode, rec, full, lastSent, roundEnd, endRec, bif, qp>>
 
 Init == /\ lastPn = -1 /\ out = {} /\ largest = -1 /\ mds = Mds0
         /\ mode = "STARTUP" /\ rec = "NOT" /\ full = FALSE
         /\ initW = InitPkts * Mds0 /\ minW = MinPkts * Mds0 /\ maxW = MaxPkts * Mds0
         /\ cwnd = InitPkts * Mds0 /\ rwnd = MaxPkts * Mds0
-        /\ lastSent = -1 /\ roundEnd = -1 /\ endRec = -1 /\ bif = 0 /\ pr \in PrSet
+        /\ lastSent = -1 /\ roundEnd = -1 /\ endRec = -1 /\ bif = 0
         /\ qp = {} /\ nEv = 0 /\ hist = <<>>
         /\ mon = MonStart(Cfg, Mds0)
 
 TwSet == {minW, minW + mds, maxW + mds}     \* target window incl. ack height: never below the minimum (:701)
 
-Next == \/ \E gap \in {1, 2} : \E b \in {1, mds} : Send(gap, b, TRUE)
-        \/ Send(1, 1, FALSE)
+\* the pacing-rate estimate is an arbitrary value of PrSet at every read (calculatePacingRate abstracted)
+Next == \/ \E gap \in {1, 2} : \E b \in (IF SmallOn THEN {1, mds} ELSE {mds}) : \E p \in PrSet : Send(gap, b, TRUE, p)
+        \/ \E p \in PrSet : Send(1, 1, FALSE, p)
         \/ \E A \in SUBSET out : \E L \in LostChoices(A) :
              \E nowFull, drainExit, rttExpire, rttExit, fewAcked \in BOOLEAN : \E tw \in TwSet : \E p2 \in PrSet :
                Cong(A, L, nowFull, drainExit, rttExpire, rttExit, tw, p2, fewAcked)
-        \/ \E v \in MdsUp : SetMDS(v)
+        \/ \E v \in MdsUp : \E p \in PrSet : SetMDS(v, p)
 
 Spec == Init /\ [][Next]_vars
 
 NoViolation == mon.viol = {}
 NoHardViolation == \A v \in mon.viol : v.clause \in DriftClauses
-PrintScn == (nEv = MaxEv) => PrintT(<<"SCN", ToJson([steps |-> hist])>>)
+\* a behaviour ends at the event bound or when every packet number is used up and nothing is in flight
+PrintScn == (nEv = MaxEv \/ (out = {} /\ lastPn = MaxPn)) => PrintT(<<"SCN", ToJson([steps |-> hist])>>)
 View == <<lastPn, out, largest, mds, mode, rec, cwnd, rwnd, full, initW, minW, maxW,
-          lastSent, roundEnd, endRec, bif, pr, qp, mon>>
+          lastSent, roundEnd, endRec, bif, qp, mon>>
 =============================================================================
